@@ -245,6 +245,12 @@ func c20a(c *Ctx) {
 				_, twice := existsPath(pathQuery{from: after(pc.(ssa.Instruction)), target: isPop, avoid: isPush})
 				c.Check(!twice, key+"/single-pop", c.W.Pos(pc.Pos()), "one pop per push", "the "+k+" stack can be popped twice for one push")
 			}
+			// ... and one push per pop: no path push -> push without a pop in between (a scope
+			// pushed twice and popped once stays on the stack for everything that follows)
+			for _, pc := range pushes {
+				_, twice := existsPath(pathQuery{from: after(pc.(ssa.Instruction)), target: isPush, avoid: isPop})
+				c.Check(!twice, key+"/single-push", c.W.Pos(pc.Pos()), "one push per pop", "the "+k+" scope can be pushed twice before it is popped once: the extra entry outlives the statement")
+			}
 			// no pop before any push
 			_, early := existsPath(pathQuery{from: entry(fn), target: isPop, avoid: isPush})
 			c.Check(!early, key+"/no-pop-before-push", c.W.FuncPos(fn), "no pop without a preceding push", "the "+k+" stack can be popped before anything was pushed")
